@@ -2,7 +2,7 @@
 
 use crate::{
     common::Run,
-    grad::{cases, check_walk, note_prepared, prepare},
+    grad::{cases, check_views, check_walk, lookahead_cases, note_prepared, prepare},
 };
 
 pub fn run(tier: &str, seed: u64, only: Option<&str>) -> Run {
@@ -12,7 +12,10 @@ pub fn run(tier: &str, seed: u64, only: Option<&str>) -> Run {
     } else {
         (5000, &[2, 3, 9, 30])
     };
-    for c in cases(seed, n_random, prefixes) {
+    let n_look = if tier == "thorough" { 4000 } else { 400 };
+    let mut all = cases(seed, n_random, prefixes);
+    all.extend(lookahead_cases(seed, n_look));
+    for c in all {
         if only.is_some_and(|o| o != c.id) {
             continue;
         }
@@ -26,6 +29,10 @@ pub fn run(tier: &str, seed: u64, only: Option<&str>) -> Run {
                     run.sample(format!("{}: mode={} objs={} settings={}", c.id, p.mode, p.objs, p.settings.describe()));
                 }
                 check_walk(&mut run, &c.id, &p);
+                if c.id.starts_with("look-") {
+                    run.count("stream:lookahead");
+                }
+                check_views(&mut run, &c.id, &p);
             }
             Err(e) if e.starts_with("convert:") => run.count("skipped:not-convertible"),
             Err(e) => run.fail("oracle:prepare", "", &c.id, e, c.text.clone()),
